@@ -34,8 +34,9 @@ class Semaphore {
     //! 请求资源，注意：只能是协程调用
     bool acquire () {
         if (count_ == 0) {      //! 如果没有资源，则等待
-            token_.push(sch_.getToken());
             do {
+                //! register before every wait: release() takes the tokens out when it wakes us
+                token_.push(sch_.getToken());
                 sch_.wait();
                 if (sch_.isCanceled())
                     return false;
@@ -48,7 +49,8 @@ class Semaphore {
 
     //! 释放资源
     void release() {
-        if (count_ == 0 && !token_.empty()) {
+        //! wake every waiter (not only on the 0 -> 1 edge); late ones register again
+        while (!token_.empty()) {
             auto t = token_.front();
             token_.pop();
             sch_.resume(t);
